@@ -7,7 +7,7 @@ VERIF = os.path.normpath(os.path.join(os.path.dirname(os.path.abspath(__file__))
 REPO = os.environ.get("KESTREL_REPO", "/repo")
 COQ = os.path.join(VERIF, "coq")
 CACHE = os.path.join(VERIF, ".cache")
-TARGET = os.path.join(CACHE, "target")
+TARGET = os.environ.get("KESTREL_VERIF_TARGET") or os.path.join(CACHE, "target")
 CASEDIR = os.path.join(COQ, "Run", "cases")
 NPROC = int(os.environ.get("VERIF_JOBS", "16"))
 GUARD = "kestrel_verif"
@@ -489,7 +489,7 @@ Set Printing Depth 1000000.
 """
 
 
-def run_model(cases, table, tag, extra_import="", per_shard=None, timeout=1500, show=False):
+def run_model(cases, table, tag, extra_import="", per_shard=None, timeout=1500, show=False, prelude=""):
     """evaluates each case's model term against the implementation's observation inside Coq.
     Sets c.agree (True/False/None=model evaluation failed).  Returns log of failures."""
     os.makedirs(CASEDIR, exist_ok=True)
@@ -515,6 +515,7 @@ def run_model(cases, table, tag, extra_import="", per_shard=None, timeout=1500, 
         with open(path, "w") as f:
             f.write(MODEL_HEADER % extra_import)
             f.write("Definition T : kdf_table := %s.\n" % T)
+            f.write(prelude)
             for c in sh_cases:
                 if show:
                     f.write("Definition c%s := (%s, show (%s)).\n" % (c.id, c.id, c.model_term()))
